@@ -31,6 +31,7 @@ def run(ctx):
     life = gc.chanlife_part(ctx, ["C03."], 3 if ctx.quick else 5)
     cfd = gc.chanfile_delivery_part(ctx, rng, ["C02.", "C03."])
     multi = gc.multi_part(ctx, ["C03."])
+    crecv = gc.closed_receive_part(ctx)
     res = gc.run_and_judge(ctx, jobs, ["C03.", "C10.endmarker-before-last-item"], lambda evs: any(e["ev"] == "ret" and e["op"] == "receive" and e["res"] == "EOF" for e in evs) and any(e["ev"] == "ret" and e["op"] in ("send", "isclosed") for e in evs), None, searches=searches)
     gwrun.close_pool()
     ctx.coverage.update({
@@ -46,5 +47,6 @@ def run(ctx):
     ctx.coverage["chanlife_replay"] = life
     ctx.coverage["channel_file_delivery"] = cfd
     ctx.coverage["multichannel_real"] = multi
+    ctx.coverage["closed_channel_receives"] = crecv
     ctx.assumptions += gc.ASSUMPTIONS
     return "model_checking"
